@@ -83,6 +83,9 @@ class FixedVArray
     bool        isMaskedReference() const { return _indices.get() != 0; }
     size_t      unmaskedLength()    const { return _unmaskedLength; }
 
+    // True if 'other' refers to memory that this array refers to as well
+    bool        sharesStorageWith (const FixedVArray<T>& other) const;
+
     std::vector<T>&        operator [] (size_t i);
     const std::vector<T>&  operator [] (size_t i) const;
 
